@@ -46,12 +46,8 @@ func genCfg(r *hx.RNG, las uint32, prof string) SessCfg {
 	} else if r.Chance(30) {
 		c.Cluster = 5 // a cluster id configured on a session that is not a route reflector client contributes nothing
 	}
-	switch r.Intn(5) {
-	case 0:
-		c.Imp = 'D'
-	case 1, 2:
-		c.Imp = 'R'
-	}
+	c.Imp = "AADDRRRN"[r.Intn(8)]
+	c.Exp = "AAAADRN"[r.Intn(7)]
 	if r.Chance(25) {
 		c.Init = 'a'
 	}
@@ -221,8 +217,10 @@ func genMsg(r *hx.RNG, c SessCfg, prof string) Msg {
 			m = mutateOpen(r, c, m)
 		}
 		return m
-	case k < 58:
+	case k < 56:
 		return Msg{Kind: 'U', Ann: genIDs(r, 3), Wd: genIDs(r, 2)}
+	case k < 60:
+		return Msg{Kind: 'A', RID: r.Intn(5), Variant: []string{"as4path", "as4path0", "as4aggr", "unk", "unknt"}[r.Intn(5)]}
 	case k < 62:
 		return Msg{Kind: 'P', RID: r.Intn(5), ByASN: r.Bool(), Val: []uint32{c.LAS, 65001, 200000, 5, c.RID, 65099}[r.Intn(6)]}
 	case k < 72:
@@ -256,6 +254,8 @@ func genEvent(r *hx.RNG, sid int, c SessCfg, prof string) Event {
 		return Event{Sid: sid, Kind: "cr"}
 	case k < 43:
 		return Event{Sid: sid, Kind: "brk"}
+	case k < 48:
+		return Event{Sid: sid, Kind: []string{"ri", "ri", "re"}[r.Intn(3)], Code: int("ADR"[r.Intn(3)])}
 	default:
 		return Event{Sid: sid, Kind: "m", M: genMsg(r, c, prof)}
 	}
